@@ -177,7 +177,19 @@ impl Prop for C01 {
         let mut cfg = MCfg::wild();
         // Binomial under scripted extreme words is the subject of C13 (known finding there).
         cfg.allow_binomial = !scripted;
-        let machines = gen_machines(&mut r, &cfg, 0, 5);
+        let mut machines = gen_machines(&mut r, &cfg, 0, 5);
+        // start / max of a distribution are not constrained by validation
+        if r.chance(1, 4) {
+            let mut twisted = 0;
+            for m in machines.iter_mut() {
+                let (nm, k) = crate::gen::hostile_bounds(&mut r, m);
+                *m = nm;
+                twisted += k;
+            }
+            if twisted > 0 {
+                out.bump("cases_with_unconstrained_dist_bounds_(start>max,_NaN,_inf,_negative)");
+            }
+        }
         let pf = gen_frac(&mut r);
         let bf = gen_frac(&mut r);
         let prefix: Vec<u64> = if scripted {
